@@ -47,7 +47,7 @@ func runC05(c *Ctx) {
 	}
 
 	// loop-free helpers factored out of multicastDelay are enumerated in line
-	ps := c.pathsO("R-C05-3", md, an.PathOpts{InlinePaths: func(f *ssa.Function) bool { return f.Pkg == md.Pkg && inlineLoopFree(f) }})
+	ps := c.pathsO("R-C05-3", md, an.PathOpts{InlinePaths: func(f *ssa.Function) bool { return (f.Pkg == md.Pkg && inlineLoopFree(f)) || c.helperInline(md)(f) }})
 	pmin, pmax := "$"+md.Params[2].Name(), "$"+md.Params[3].Name()
 	pi := "$" + md.Params[1].Name()
 	for _, p := range ps {
